@@ -1390,7 +1390,7 @@ def split_at(collection, index, to_list):
         [[], [1, 2, 3, 4]]
     """
     lst = to_list(collection)
-    return [lst[:index], lst[index:]]
+    return (lst[:index], lst[index:])
 
 
 @specs.method
